@@ -40,12 +40,24 @@ def fil_case(c):
         # on-disk variant: one loadable file per piece
         if c.get("split_fil"):
             try:
+                if c.get("presplit"):
+                    # the output directory was used before, for another recording of the same geometry cut into pieces of the same width
+                    # (fewer integrations, other intensities): what this call returns must be this call's pieces
+                    other = stg.Frame(fchans=nch, tchans=T, df=c["df"], dt=c["dt"], fch1=c["fch1"], ascending=c["ascending"], t_start=1e9)
+                    other.data = fr.data + 5e7
+                    fn2 = os.path.join(d, "other.fil")
+                    with contextlib.redirect_stdout(io.StringIO()):
+                        other.save_fil(fn2)
+                        SU.split_fil(fn2, os.path.join(d, "out"), c["fchans"], tchans=1, f_shift=c.get("f_shift"))
                 with contextlib.redirect_stdout(io.StringIO()):
                     fns = SU.split_fil(fn, os.path.join(d, "out"), c["fchans"], tchans=c.get("tchans"), f_shift=c.get("f_shift"))
                 shapes = []
                 for f in fns:
                     g = stg.Frame(waterfall=str(f))
                     shapes.append([int(g.tchans), int(g.fchans), float(g.fmin), float(g.fmax)])
+                    if float(np.max(g.data)) >= 4e7:
+                        out["fails"].append(["split-fil-stale", "split_fil returned %s, which holds the intensities of an earlier split into the same directory" % os.path.basename(str(f))])
+                        break
                 out["split_fil"] = dict(n=len(fns), names=[os.path.basename(str(f)) for f in fns], shapes=shapes)
             except Exception as ex:
                 out["split_fil"] = dict(err=type(ex).__name__ + ": " + str(ex)[:150])
